@@ -1,5 +1,9 @@
 (* Proofs about Model/Pool.v *)
 From V Require Import Model.Pool Gen.ConstSpawn.
+From Coq Require Import Permutation.
+Local Arguments Nat.ltb : simpl never.
+Local Arguments Nat.leb : simpl never.
+Local Arguments Nat.sub : simpl never.
 
 (* site censuses the model was read against (pool.rs: push, retain / append, retain, pop;
    nts_pool.rs: push, retain) *)
@@ -54,11 +58,10 @@ Proof.
   intros c cur i a (Hlen & Hnd & Hign) Hlt Hnin Ha. repeat split.
   - rewrite app_length; cbn; lia.
   - rewrite cur_addrs_app; cbn.
-    apply NoDup_app_remove_l with (l := []) || idtac.
     assert (H : NoDup (a :: cur_addrs cur)) by (constructor; auto).
-    eapply Permutation.Permutation_NoDup; [| exact H].
+    eapply Permutation_NoDup; [| exact H].
     change (a :: cur_addrs cur) with ([a] ++ cur_addrs cur).
-    apply Permutation.Permutation_app_comm.
+    apply Permutation_app_comm.
   - intros p Hp. apply in_app_or in Hp. destruct Hp as [Hp | [<- | []]]; auto.
 Qed.
 
@@ -116,7 +119,7 @@ Lemma draw_spec : forall c kn cur nid,
   /\ active_from cur (spawned_obs (snd r)) = current (fst r).
 Proof.
   intros c kn; induction kn as [| a kn IH]; intros cur nid HS Hkn; cbn.
-  - destruct (length cur <? count c)%nat; cbn; repeat split; auto; apply HS.
+  - destruct (length cur <? count c)%nat; cbn; (split; [| split; [| split]]); auto.
   - destruct (length cur <? count c)%nat eqn:Hlt; cbn.
     + inversion Hkn; subst.
       destruct (mem_addr a (cur_addrs cur)) eqn:Hm.
@@ -124,8 +127,8 @@ Proof.
       * apply mem_addr_false in Hm. apply Nat.ltb_lt in Hlt.
         assert (HS' : Safe c (cur ++ [(nid, a)])) by (apply Safe_push; auto).
         specialize (IH (cur ++ [(nid, a)]) (nid + 1) HS' H2). cbn in IH.
-        destruct IH as (I1 & I2 & I3 & I4). cbn. repeat split; auto; apply HS.
-    + repeat split; auto; apply HS.
+        destruct IH as (I1 & I2 & I3 & I4). cbn. (split; [| split; [| split]]); auto.
+    + (split; [| split; [| split]]); auto.
 Qed.
 
 (* ---------- one operation ---------- *)
@@ -145,9 +148,6 @@ Proof.
   apply memZ_false in Hk. exact Hk.
 Qed.
 
-Lemma always_nil : forall P acc, P acc -> always P [] acc.
-Proof. intros; cbn; auto. Qed.
-
 Lemma step_spec : forall c st o, Inv c st ->
   let r := step c st o in
   Inv c (fst r) /\ always (Safe c) (snd r) (current st)
@@ -156,17 +156,17 @@ Proof.
   intros c st o [HS Hk]. destruct o as [dns | id rsn]; cbn.
   - unfold try_spawn_with.
     destruct (count c <=? length (current st))%nat.
-    { cbn. repeat split; auto; apply HS. }
+    { cbn. split; [split; auto | split; auto]. }
     destruct (length (known st) <? count c - length (current st))%nat.
     + destruct dns as [l |].
       * pose proof (draw_spec c (after_lookup c st l) (current st) (next_id st) HS
                       (after_lookup_not_ignored c st l)) as H. cbn in H.
-        destruct H as (H1 & H2 & H3 & H4). repeat split; auto; apply H1.
-      * cbn. repeat split; auto; apply HS.
+        destruct H as (H1 & H2 & H3 & H4). split; [split; auto | split; auto].
+      * cbn. split; [split; auto | split; auto].
     + pose proof (draw_spec c (known st) (current st) (next_id st) HS Hk) as H. cbn in H.
-      destruct H as (H1 & H2 & H3 & H4). repeat split; auto; apply H1.
+      destruct H as (H1 & H2 & H3 & H4). split; [split; auto | split; auto].
   - pose proof (Safe_drop c (current st) id HS) as HD.
-    repeat split; auto; try apply HS; apply HD.
+    split; [split; auto | split; auto].
 Qed.
 
 Lemma exec_spec : forall c ops st, Inv c st ->
@@ -175,7 +175,7 @@ Lemma exec_spec : forall c ops st, Inv c st ->
   /\ active_from (current st) (snd r) = current (fst r).
 Proof.
   intros c ops; induction ops as [| o ops IH]; intros st HI; cbn.
-  - destruct HI as [HS Hk]. repeat split; auto; apply HS.
+  - destruct HI as [HS Hk]. split; [split; auto | split; auto].
   - pose proof (step_spec c st o HI) as Hs. cbn in Hs. destruct Hs as (S1 & S2 & S3).
     fold (step c st o) in *.
     specialize (IH (fst (step c st o)) S1). cbn in IH. destruct IH as (E1 & E2 & E3).
@@ -272,9 +272,9 @@ Proof.
       * rewrite app_length; cbn; lia.
       * rewrite map_app; cbn. unfold has_remote in Hh. apply memZ_false in Hh.
         assert (H : NoDup (key :: map snd (ncurrent st))) by (constructor; auto).
-        eapply Permutation.Permutation_NoDup; [| exact H].
+        eapply Permutation_NoDup; [| exact H].
         change (key :: map snd (ncurrent st)) with ([key] ++ map snd (ncurrent st)).
-        apply Permutation.Permutation_app_comm.
+        apply Permutation_app_comm.
     + apply IH; auto; lia.
 Qed.
 
